@@ -74,6 +74,7 @@ Definition smsg_eqb (a b : smsg) : bool :=
   | SPart a, SPart a' => N.eqb a a'
   | SFlags s f, SFlags s' f' => N.eqb s s' && N.eqb f f'
   | STransient k key, STransient k' key' => N.eqb k k' && N.eqb key key'
+  | SDialout r, SDialout r' => N.eqb r r'
   | SOther k, SOther k' => N.eqb k k'
   | _, _ => false
   end.
